@@ -71,8 +71,12 @@ def load_known(prop_id):
 
 
 def match_known(known, signature):
+    """known signatures are literal except for '*' (any run of characters)"""
+    import re
+
     for k in known:
-        if fnmatch.fnmatchcase(signature, k["signature"]):
+        pat = "^" + ".*".join(re.escape(part) for part in k["signature"].split("*")) + "$"
+        if re.match(pat, signature):
             return k
     return None
 
